@@ -55,6 +55,7 @@ type Contract struct {
 	ExternPkg   string // contract of a function in another (unverified) package: trusted
 	Harness     bool
 	Inlines     []string
+	Abstracts   []string // spec functions used through their contract (result = uninterpreted function of the arguments) in this harness
 	Bounded     string // description of the input-domain bound of a bounded harness
 	UnrollTo    int
 	UseText     []string
@@ -73,7 +74,7 @@ type Contract struct {
 }
 
 var clauseKW = map[string]bool{"func": true, "requires": true, "ensures": true, "modifies": true, "loop": true,
-	"trusted": true, "inline": true, "nilable": true, "noalloc": true, "alloc-bounded": true, "use": true, "decreases": true, "opaque": true, "harness": true, "inlines": true, "bounded": true, "extern": true, "import": true}
+	"trusted": true, "inline": true, "nilable": true, "noalloc": true, "alloc-bounded": true, "use": true, "decreases": true, "opaque": true, "harness": true, "inlines": true, "abstracts": true, "bounded": true, "extern": true, "import": true}
 
 // parseContractFile extracts the contracts of one file.
 // contractImports collects `//@ import alias "path"` directives of a contract file.
@@ -189,6 +190,10 @@ func parseContractFile(path string, src []byte) ([]*Contract, string, error) {
 		case "inlines":
 			for _, n := range strings.Split(text, ",") {
 				cur.Inlines = append(cur.Inlines, strings.TrimSpace(n))
+			}
+		case "abstracts":
+			for _, n := range strings.Split(text, ",") {
+				cur.Abstracts = append(cur.Abstracts, strings.TrimSpace(n))
 			}
 		case "bounded":
 			// bounded <unroll> <description>
